@@ -252,6 +252,13 @@ class Writer(Client):
             op["np_start"] = True
         if op["table"] and rng.random() < 0.25:
             op["table_dtype"] = rng.choice(["uint8", "int8", "int32", "uint16"])     # same rows, another integer dtype
+        # drawn from a stream of its own, so every other choice of the run is what it was without these two features
+        aux = self.__dict__.setdefault("aux", stream(sim.seed, "writer-aux"))
+        if aux.random() < 0.2:
+            op["bits_dtype"] = aux.choice(["uint8", "int8", "int16", "int32", "int64", "uint64"])
+        elif sim.prop == "C04" and 0 < L <= 24 and aux.random() < 0.15:
+            op["twin"] = {"dtype": aux.choice(["uint8", "uint8", "int8", "int16", "int32"]),
+                          "order": aux.choice(["before", "after"])}
         return op
 
     def deliver(self, op, rec):
@@ -599,14 +606,14 @@ class Sim(object):
     def pool_event(self, rec):
         self.log.append(rec)
 
-    def run_huge(self):
+    def run_huge(self, lengths=(7150, 7400), probe="c06:huge-strand"):
         """Thorough tier of C06, one run in ~1500: a single very long walk (payloads beyond 14 000 bits, where
         decimal-string <-> int shortcuts and quadratic arithmetic break) decoded clean and with one foreign tail."""
         rng = stream(self.seed, "huge")
         k = rng.choice([1, 2])
         self.log.append({"seed": self.seed, "prop": self.prop, "tier": self.tier, "config": "huge-strand"})
         ops = [{"op": "DESIGN", "id": "D0", "kind": "rows", "k": k, "arcs": "1" * (4 ** (k + 1))}]
-        n = rng.randint(7150, 7400)
+        n = rng.randint(*lengths)
         w = "".join(rng.choice(M.NT) for _ in range(n))
         base = {"op": "READ", "mode": "decode", "design": "D0", "start": rng.randrange(4 ** k), "origin": w, "edits": [],
                 "fast": False, "table": None, "check": None, "bit_length": 2 * n}
@@ -620,13 +627,17 @@ class Sim(object):
             self.results.append([(rec.get("out") or {}).get("kind"), (rec.get("out") or {}).get("type"), rec.get("res")])
             if self.ctx.violation is not None:
                 break
-        self.stats.inc("probes", "c06:huge-strand")
+        self.stats.inc("probes", probe)
         return self.ctx.violation
 
     def run(self):
         seams.begin_run(stream(self.seed, "rngseam"))
         if self.tier == "thorough" and self.prop == "C06" and stream(self.seed, "huge?").random() < 1.0 / 1500:
             return self.run_huge()
+        if self.prop == "C06" and stream(self.seed, "large?").random() < 1.0 / 1600:
+            # both tiers, one run in ~1600: the first long strand this process ever decodes is 2 100 - 3 300 nt long
+            # (beyond any 1k / 2k / 4k-bit internal buffer or chunk), decoded clean and with one foreign tail
+            return self.run_huge(lengths=(2100, 3300), probe="c06:large-strand-first")
         self.log.append({"seed": self.seed, "prop": self.prop, "tier": self.tier, "config": self.cfg.as_dict()})
         clients = [CLIENTS[name](self) for name in self.prof["clients"] if not (self.cfg.marathon and name == "writer")]
         idle = spins = 0
